@@ -11,7 +11,7 @@ LEAN_MODULES = ["CatiiProps.C02"]
 RULE = ("exhaustive: every list of 0..3 one-axis dims over N<=3 rows, values<2, every common; random: 0..4 dims, N<=40, "
         "extents 1..5, one/two/three-axis dims, commons frequent/rare/absent, explicit shapes padded beyond the data, "
         "extents at 255/256/257 and 65535/65536/65537 (<=2 dims). Observed on the real code: interactions, regions after "
-        "fill, after marginal differencing, count() in NaN and (0, False) formats. Non-trivial = at least one row and one "
+        "fill, after marginal differencing, count() in NaN and (0, False) formats; multi-axis cubes are counted again after one of their dimensions was updated in place. Non-trivial = at least one row and one "
         "dim; distinct by (dense arrays, commons, shape)")
 ASSUMPTIONS = ["counts below 2^53 (regions are float64 when missing cells are reported as NaN)"]
 MODEL_CELL_LIMIT = 400
@@ -79,6 +79,37 @@ def check(ctx, case, reqs, pend, shape=None):
             c0, res[c0], bool(np.isnan(res[c0])), exp[c0]), small, cls="C02-wrong-count")
     if not np.array_equal(np.asarray(vals), exp) or not np.array_equal(np.asarray(valid), exp != 0):
         ctx.oracle_fail("(0, False) format disagrees with brute force", small, cls="C02-wrong-count")
+    if multi and N > 0 and ctx.rng.random() < 0.6:
+        # the SAME cube object after one of its multi-axis dimensions was changed in place (update(), as a caller who
+        # keeps cubes around would): it is still the count cube of its dimensions
+        a = ctx.rng.choice([j for j, d in enumerate(dense) if d.ndim > 1])
+        d2 = dense[a].copy()
+        present = sorted(set(int(v) for v in d2.reshape(-1).tolist()) | {int(commons[a])})
+        for _ in range(ctx.rng.randrange(1, 4)):
+            pos = tuple(ctx.rng.randrange(s_) for s_ in d2.shape)
+            d2[pos] = ctx.rng.choice(present)
+        ent = {}
+        for pos in itertools.product(*[range(s_) for s_ in d2.shape]):
+            if d2[pos] != dense[a][pos]:
+                ent.setdefault((int(d2[pos]),) + tuple(int(x) for x in pos[1:]), []).append(pos[0])
+        small2 = dict(small, live_cube_updated_dim=a, update={str(k): v for k, v in ent.items()})
+        ctx.case(small2, nontrivial=True)
+        ctx.hit("live_cube_updated")
+        try:
+            idxs[a].update({k: np.array(sorted(v), dtype=np.uint32) for k, v in ent.items()})
+            res2 = np.asarray(cube.count())
+        except Exception as e:
+            ctx.oracle_fail("count on a cube whose dimension was updated in place raised %s: %s" % (type(e).__name__, e), small2,
+                            cls="C02-raises")
+            return
+        exp2 = oracle_table([d2 if j == a else d for j, d in enumerate(dense)], ishape, N)
+        got2 = np.where(np.isnan(res2), 0, res2)
+        if res2.shape != exp2.shape or not np.array_equal(got2, exp2) or not np.array_equal(np.isnan(res2), exp2 == 0):
+            bad = np.argwhere((got2 != exp2) | (np.isnan(res2) != (exp2 == 0))) if res2.shape == exp2.shape else [[0]]
+            c0 = tuple(int(x) for x in bad[0])
+            ctx.oracle_fail("cube built before dimension %d was updated in place: cell %s: count %s, brute force says %s" % (
+                a, c0, res2[c0] if res2.shape == exp2.shape else "?", exp2[c0] if res2.shape == exp2.shape else "?"), small2,
+                cls="C02-wrong-count")
     if multi or not dense:
         if not dense and not ctx.oracle_only:
             reqs.append({"op": "count", "dims": [], "N": N, "shape": None if shape is None else list(shape)})
